@@ -215,6 +215,12 @@ def enumerated(tier):
             for dt in (0, 1, 8):
                 for gap in (2, 40, 300):
                     yield {**base, "latency": 64, "events": [{"do": "disconnect", "at": 64}, {"do": "cancel_disc", "at": 64 + dt}, {**c2, "at": 64 + dt + gap}]}
+        # disconnect() during a slow hello gives up waiting (5 s, records its timeout), the device answers after all, the
+        # disconnect() caller gives up too; later the session is lost
+        for login in (False, True):
+            for c2 in ({"do": "eof"}, {"do": "reset"}, {"do": "chunk", "frames": ["garbage"]}, {"do": "silence"}, {"do": "writefail_raise"}):
+                yield {"noise": noise, "login": login, "flow": "connect", "K": 8.0, "final_at": 400.0, "latency": 400,
+                       "events": [{"do": "disconnect", "at": 30}, {"do": "cancel_disc", "at": 256 * (7 if not login else 14)}, {**c2, "at": 256 * (8 if not login else 15)}, {"do": "chunk", "frames": ["ping"], "at": 256 * 16}]}
         # every cause alone, at steady state and during the keepalive wait, plus silence -> ping timeout
         for c1 in PAIR_CAUSES + [{"do": "silence"}, {"do": "cancel"}]:
             for at in (40, 64, 2100, 2200):
